@@ -67,7 +67,7 @@ class StepCap(Exception):
 
 
 EXC_CLASSES = {'ValueError': ValueError, 'KeyError': KeyError, 'RuntimeError': RuntimeError,
-               'AssertionError': AssertionError, 'IndexError': IndexError,
+               'AssertionError': AssertionError, 'IndexError': IndexError, 'TimeoutError': TimeoutError,
                'InjectedFault': InjectedFault}
 
 
